@@ -353,9 +353,9 @@ func checkFS(c fsCase) (fw.Outcome, *fw.Violation) {
 
 func TestC19FSStates(t *testing.T) {
 	fw.Run(t, fw.Spec[fsCase]{
-		ID: "C19", Name: "fs_states", Quick: 560, Thorough: 11200,
+		ID: "C19", Name: "fs_states", Quick: 640, Thorough: 12800,
 		Gen: genFS, Check: checkFS,
-		Rule: "the csvq binary run as uid/gid 65534 (so permission bits bite) in a fresh directory prepared as one of: missing file | directory in place of a file | unreadable file (mode 000) | read-only directory with UPDATE/INSERT/DELETE/CREATE + COMMIT | read-only file | working directory removed before exec (sh -c 'cd gone && rmdir ../gone && exec csvq') | dangling symlink | symlink loop | FIFO as table with and without a writer | --out to an existing read-only/writable file, a directory, a missing directory, an unwritable directory, /dev/full | missing --source | --source that is a directory | missing --repository / repository that is a file | directory without search permission | over-long, NUL- and newline-containing names | missing HOME | stdin that is a directory / closed stdin and stdout | stdout on /dev/full | empty and binary files; x 3-17 statements per state (SELECT, DML, DDL, table objects, INLINE::, SOURCE, CHDIR, flags). Oracle: the process terminates (20 s watchdog, re-tried once with 80 s), is not killed by a signal, exit code in {0,1,2,4,8,16,32,64}, neither stream contains 'Fatal Error', 'panic:' or 'goroutine '. non-trivial = every (state, statement) pair; distinct by (state, statement, exit code)",
+		Rule:        "the csvq binary run as uid/gid 65534 (so permission bits bite) in a fresh directory prepared as one of: missing file | directory in place of a file | unreadable file (mode 000) | read-only directory with UPDATE/INSERT/DELETE/CREATE + COMMIT | read-only file | working directory removed before exec (sh -c 'cd gone && rmdir ../gone && exec csvq') | dangling symlink | symlink loop | FIFO as table with and without a writer | --out to an existing read-only/writable file, a directory, a missing directory, an unwritable directory, /dev/full | missing --source | --source that is a directory | missing --repository / repository that is a file | directory without search permission | over-long, NUL- and newline-containing names | missing HOME | stdin that is a directory / closed stdin and stdout | stdout on /dev/full | empty and binary files; x 3-17 statements per state (SELECT, DML, DDL, table objects, INLINE::, SOURCE, CHDIR, flags). Oracle: the process terminates (20 s watchdog, re-tried once with 80 s), is not killed by a signal, exit code in {0,1,2,4,8,16,32,64}, neither stream contains 'Fatal Error', 'panic:' or 'goroutine '. non-trivial = every (state, statement) pair; distinct by (state, statement, exit code)",
 		Assumptions: []string{"if the harness cannot start a child under uid 65534 the states are discarded and counted in measured.fs_states_skipped_no_unprivileged_child, not passed"},
 	})
 }
